@@ -15,8 +15,9 @@ LEVEL = "model_checking"
 ASSUMPTIONS = ["E5's validator decides which documents are valid (all 29 June-2018 rules incl. 5.3.2 field merging)"]
 BUDGET_S = {"quick": 120, "thorough": 3000}
 DEPTH = {"quick": 2, "thorough": 3}
-SLICES = {"quick": 4, "thorough": 24}
+SLICES = {"quick": 8, "thorough": 32}
 KINDS = ("R3", "R5", "R6", "R8", "R10", "R11", "R14", "R15", "R16", "R4")
+LEVEL2_QUICK = ("R3", "R5", "R6", "R8L", "R14", "R15")
 
 SEEDS = [
     "{ a { ...X ...Y } } fragment X on A { id ...Z } fragment Y on A { name ...Z } fragment Z on A { a }",
@@ -54,7 +55,10 @@ def run_shard(item):
     stats = None
     depth = DEPTH[tier]
     try:
-        for d, level, trail, stats in explore.bfs(schema, seed_doc, depth, {l: KINDS for l in range(1, depth + 1)}, (k, n)):
+        kinds_by_level = {l: KINDS for l in range(1, depth + 1)}
+        if tier == "quick":
+            kinds_by_level[2] = LEVEL2_QUICK
+        for d, level, trail, stats in explore.bfs(schema, seed_doc, depth, kinds_by_level, (k, n)):
             text, located = doc.roundtrip(d, pretty=(level == 1))
             out["counts"]["states"] += 1
             h = explore.h64(text)
